@@ -435,6 +435,9 @@ int KSI_TlvElement_appendElement(KSI_TlvElement *parent, KSI_TlvElement *child) 
 		goto cleanup;
 	}
 
+	/* The payload of the parent has grown by the encoding of the child. */
+	parent->ftlv.dat_len += child->ftlv.hdr_len + child->ftlv.dat_len;
+
 	res = KSI_OK;
 
 cleanup:
@@ -472,7 +475,6 @@ int KSI_TlvElement_setElement(KSI_TlvElement *parent, KSI_TlvElement *child) {
 		case 0: /* Add a new value. */
 			res = KSI_TlvElement_appendElement(parent, child);
 			if (res != KSI_OK) goto cleanup;
-			parent->ftlv.dat_len += child->ftlv.hdr_len + child->ftlv.dat_len;
 			break;
 		case 1: /* Replace the existing value. */
 			res = KSI_TlvElementList_elementAt(fc.result, 0, &ptr);
